@@ -481,9 +481,30 @@ func TestBezier(t *testing.T) {
 					o.H, o.FwdTheta, o.FwdR, o.RevTheta, o.RevR = "both", angle(t, l+".ftheta"), hr(l+".fr"), angle(t, l+".rtheta"), hr(l+".rr")
 				}
 			case fwdOf[i]:
-				o.H, o.FwdTheta, o.FwdR = "fwd", angle(t, l+".ftheta"), hr(l+".fr")
+				// one-sided: through HandleFwd alone, or through the two-sided calls with a ZERO-LENGTH
+				// handle on the other side (documented as "no handle", whatever angle it carries)
+				switch rapid.IntRange(0, 3).Draw(t, l+".one-sided-via") {
+				case 0:
+					o.H, o.FwdTheta, o.FwdR, o.RevR = "handle", angle(t, l+".theta"), hr(l+".fr"), 0
+				case 1:
+					o.H, o.FwdTheta, o.FwdR, o.RevTheta, o.RevR = "both", angle(t, l+".ftheta"), hr(l+".fr"), angle(t, l+".rtheta"), 0
+				default:
+					o.H, o.FwdTheta, o.FwdR = "fwd", angle(t, l+".ftheta"), hr(l+".fr")
+				}
 			case revOf[i]:
-				o.H, o.RevTheta, o.RevR = "rev", angle(t, l+".rtheta"), hr(l+".rr")
+				switch rapid.IntRange(0, 3).Draw(t, l+".one-sided-via") {
+				case 0:
+					o.H, o.FwdTheta, o.FwdR, o.RevR = "handle", angle(t, l+".theta"), 0, hr(l+".rr")
+				case 1:
+					o.H, o.FwdTheta, o.FwdR, o.RevTheta, o.RevR = "both", angle(t, l+".ftheta"), 0, angle(t, l+".rtheta"), hr(l+".rr")
+				default:
+					o.H, o.RevTheta, o.RevR = "rev", angle(t, l+".rtheta"), hr(l+".rr")
+				}
+			default:
+				// no handle at all: sometimes said with zero-length handles at some angle
+				if rapid.IntRange(0, 5).Draw(t, l+".zero-handles") == 0 {
+					o.H, o.FwdTheta, o.FwdR, o.RevTheta, o.RevR = "both", angle(t, l+".ftheta"), 0, angle(t, l+".rtheta"), 0
+				}
 			}
 		}
 		// expected control polygons, straight from the plan
